@@ -643,6 +643,11 @@ impl<'a, Input: InputIndexer> MatchAttempter<'a, Input> {
         // to.
         #[allow(clippy::never_loop)]
         'nextinsn: loop {
+            #[cfg(regress_verif)]
+            if !crate::verif::fuel::tick(self.bts.len()) {
+                self.bts.truncate(1);
+                return None;
+            }
             'backtrack: loop {
                 // Helper macro to either increment ip and go to the next insn, or backtrack.
                 macro_rules! next_or_bt {
